@@ -69,6 +69,11 @@ func (c *c04aConn) Do(cmd string, args ...interface{}) (interface{}, error) {
 	c.t.mu.Lock()
 	defer c.t.mu.Unlock()
 	switch strings.ToLower(cmd) {
+	case "info":
+		// the replay asks for the keyspace when it withdraws the stored resume position
+		return "# Keyspace\r\ndb0:keys=1,expires=0,avg_ttl=0\r\n", nil
+	case "hdel":
+		return int64(0), nil
 	case "restore":
 		c.t.restored[c04aStr(args[0])] = true
 		return "OK", nil
